@@ -25,6 +25,7 @@ EXPLANATION = (
     "path (read command at sensor.offset + read_value) and the bulk path (seek + read_value) decode with the same summary. Numerical "
     "equality against a register file is not decided."
     ' (R5) an id listed twice by sensors() must resolve to the last definition in _get_sensor, as the bulk dictionary does.'
+    " (R5 bulk-last-wins) _map_response stores what each row's read() returned unconditionally, so for an id listed twice the bulk value is the one of the definition _get_sensor resolves."
 )
 
 
